@@ -28,7 +28,7 @@ ZeroVars == [i \in 1..26 |-> I(0)]
 Start(p, prm, sta) ==
     [p |-> p, pc |-> 1, stk |-> <<>>, out |-> <<>>,
      prm |-> [i \in 1..9 |-> IF i <= Len(prm) THEN prm[i] ELSE I(0)],
-     dyn |-> ZeroVars, sta |-> sta, done |-> Len(p) = 0]
+     dyn |-> ZeroVars, sta |-> sta, done |-> Len(p) = 0, rf |-> FALSE]
 
 \* ---- stack --------------------------------------------------------------
 Top(m) == IF m.stk = <<>> THEN I(0) ELSE m.stk[Len(m.stk)]
@@ -66,6 +66,23 @@ FmtInt(f, n) ==
 FmtStr(f, s) ==
     LET t == IF f.prec >= 0 /\ f.prec < Len(s) THEN SubSeq(s, 1, f.prec) ELSE s
         pad == f.width - Len(t)
+    IN IF f.minus THEN t \o Rep(32, pad) ELSE Rep(32, pad) \o t
+
+\* The same with width and precision counted in UTF-8 characters instead of bytes (what Go's fmt does with a
+\* string; an invalid byte counts as one character).  Not terminfo(5): kept to classify a known deviation.
+RuneLen(s, i) ==
+    LET b == s[i]
+        n == IF b < 194 THEN 1 ELSE IF b <= 223 THEN 2 ELSE IF b <= 239 THEN 3 ELSE IF b <= 244 THEN 4 ELSE 1
+        lo == IF b = 224 THEN 160 ELSE IF b = 240 THEN 144 ELSE 128
+        hi == IF b = 237 THEN 159 ELSE IF b = 244 THEN 143 ELSE 191
+    IN IF n > 1 /\ i + n - 1 <= Len(s) /\ s[i + 1] >= lo /\ s[i + 1] <= hi
+          /\ \A k \in 2..(n - 1) : s[i + k] >= 128 /\ s[i + k] <= 191 THEN n ELSE 1
+RECURSIVE RuneEnds(_, _)
+RuneEnds(s, i) == IF i > Len(s) THEN <<>> ELSE LET n == RuneLen(s, i) IN <<i + n - 1>> \o RuneEnds(s, i + n)
+FmtStrR(f, s) ==
+    LET ends == RuneEnds(s, 1)
+        t == IF f.prec >= 0 /\ f.prec < Len(ends) THEN (IF f.prec = 0 THEN <<>> ELSE SubSeq(s, 1, ends[f.prec])) ELSE s
+        pad == f.width - Len(RuneEnds(t, 1))
     IN IF f.minus THEN t \o Rep(32, pad) ELSE Rep(32, pad) \o t
 
 IsDigit(b) == b >= 48 /\ b <= 57
@@ -184,7 +201,7 @@ TStep(m0) ==
           [] OTHER ->
                 LET f == ParseFmt(p, pc + 1) IN
                 IF ~f.ok THEN Goto(m0, pc + 2)          \* unknown operator: the statement does not say
-                ELSE IF f.f.conv = 115 THEN Emit(Pop(m0), FmtStr(f.f, StrOf(Top(m0))), f.next)
+                ELSE IF f.f.conv = 115 THEN Emit(Pop(m0), IF m0.rf THEN FmtStrR(f.f, StrOf(Top(m0))) ELSE FmtStr(f.f, StrOf(Top(m0))), f.next)
                 ELSE IF f.f.conv = 99 THEN Emit(Pop(m0), FmtStr(f.f, <<IntOf(Top(m0)) % 256>>), f.next)
                 ELSE Emit(Pop(m0), FmtInt(f.f, IntOf(Top(m0))), f.next)
       IN [m1 EXCEPT !.done = m1.pc > Len(p)]
@@ -194,6 +211,7 @@ Run(m) == IF m.done THEN m ELSE Run(TStep(m))
 
 \* result of evaluating program p with parameters prm and static variables sta
 Eval(p, prm, sta) == Run(Start(p, prm, sta))
+EvalRuneFmt(p, prm, sta) == Run([Start(p, prm, sta) EXCEPT !.rf = TRUE])
 
 \* ---- well-formedness (C14) ----------------------------------------------
 \* every %? has its %; and %t/%e occur inside a conditional; every % starts a known token
